@@ -2470,6 +2470,16 @@ class Trimesh(Geometry3D):
                 matrix,
             )[0]
 
+        # normals can only be carried along by a matrix whose linear
+        # part is a scaled rotation or reflection: under anisotropic
+        # scale or shear they are no longer perpendicular to the faces
+        linear = matrix[:3, :3]
+        gram = np.dot(linear.T, linear)
+        similar = util.allclose(gram, _IDENTITY3 * gram[0, 0], atol=1e-8 * gram[0, 0])
+        if has_rotation and not similar:
+            self._cache.cache.pop("face_normals", None)
+            self._cache.cache.pop("vertex_normals", None)
+
         # preserve face normals if we have them stored
         if has_rotation and "face_normals" in self._cache:
             # transform face normals by rotation component
